@@ -7,7 +7,7 @@ CONSTANTS
   NRs = {3,4,5,6,7,8,9,12,16,20}
   NRhos = {0}
   Faults = FALSE
-  FlushFixed = FALSE
+  FlushFixed = TRUE
 INVARIANT TypeOK
 INVARIANT NoStuck
 INVARIANT C01_OneBlockPerPotential
